@@ -6,11 +6,16 @@ package main
 //   writer steps   ingest:<n>         bulk-ingest n more events (ids continue), returns when buffered
 //                  flush.vis          start the flush; it parks right after the block became query-visible
 //                  flush.end          let the parked flush finish
-//                  rot.meta           start the rotation; it parks after AddSegMetaToMetadata (rotated metadata visible)
+//                  rot.tree           start the rotation; it parks right after the agile-tree meta file has been created
+//                                     (EncodeStarTree), or - no tree is being built - like rot.meta
+//                  rot.meta           start the rotation (or let the one parked at rot.tree go on); it parks after
+//                                     AddSegMetaToMetadata (rotated metadata visible)
 //                  rot.remove         let it go on; it parks after removeSegKeyFromUnrotatedInfo
 //                  rot.end            let the rotation finish
 //   query steps    q.snapU            start the query; it parks after the unrotated snapshot
 //                  q.snapR            let it take the rotated snapshot; it parks after it
+//                  q.tree             let it go on: group-by queries now look for agile trees of the listed segments; it parks
+//                                     where q.check describes (there is nothing between the two in the code)
 //                  q.check            let it go on until it has decided, for a segment it listed as unrotated, that the segment
 //                                     is (still) unrotated and is about to read the unrotated info (GetSSRsFromQSR); if the
 //                                     query never gets there (nothing listed as unrotated any more) the step is a no-op
@@ -65,7 +70,7 @@ func cmdVisSched(c Cmd) (interface{}, error) {
 	pU := []string{"snap.unrotated|" + qs, "snapagg.unrotated|" + qs}
 	pR := []string{"snap.rotated|" + qs, "snapagg.rotated|" + qs}
 	gateInstall("qid", append(append([]string{}, pU...), append(pR, "search.unrotated|"+qs, "search.planned|"+qs, "read.unrotated.checked|"+qs,
-		"fetch.unrotated.checked|"+qs, "flush.unrotated.visible|*", "rot.metadata.visible|*", "rot.unrotated.removed|*")...))
+		"fetch.unrotated.checked|"+qs, "flush.unrotated.visible|*", "rot.tree.created|*", "rot.metadata.visible|*", "rot.unrotated.removed|*")...))
 	curSeg, want := "", "" // segment the writer is filling / the one the query listed last
 	// gate keys for writer points carry no qid: hookFn builds "point|<nil>" -> falls back to "point|*"
 	const W = 4 * time.Second
@@ -83,6 +88,7 @@ func cmdVisSched(c Cmd) (interface{}, error) {
 	pendingInWip := 0
 	forced := 0
 	infeasible := ""
+	atMeta, rotStarted, treesParked := false, false, 0
 	var q qres
 	gotQ := false
 	waitW := func() bool {
@@ -92,6 +98,38 @@ func cmdVisSched(c Cmd) (interface{}, error) {
 		case <-time.After(W):
 			return false
 		}
+	}
+	sawTree := false
+	for _, st := range steps {
+		if st == "q.tree" {
+			sawTree = true
+		}
+	}
+	// prime: make the persistent-query machinery track the group-by columns, so that segments get an agile tree
+	if c.boolean("prime") {
+		var zero time.Duration
+		body := fmt.Sprintf("{\"index\":{\"_index\":%q}}\n{\"id\":%d,\"g\":%d,\"v\":%d,\"timestamp\":%d}\n", index, nextID, nextID%3, nextID, 1700000000000+int64(nextID)*1000)
+		if _, _, err := eswriter.HandleBulkBody([]byte(body), nil, 0, 0, false); err != nil {
+			return nil, err
+		}
+		nextID++
+		ingested++
+		flushedVisible++
+		hk.mu.Lock()
+		gatesOff := hk.gates
+		hk.gates = nil
+		hk.mu.Unlock()
+		writer.FlushWipBufferToFile(&zero, nil)
+		for _, pt := range []string{"* | stats count by g", "* | stats sum(v) by g", "* | stats count by g"} {
+			nextQid++
+			m := map[string]interface{}{"searchText": pt, "indexName": index, "startEpoch": uint64(1),
+				"endEpoch": uint64(1900000000000), "queryLanguage": "Splunk QL", "size": json.Number("100")}
+			_, _, _, _ = pipesearch.ParseAndExecutePipeRequest(m, nextQid, 0, time.Now(), "-1", nil)
+		}
+		writer.ForceRotateSegmentsForTest()
+		hk.mu.Lock()
+		hk.gates = gatesOff
+		hk.mu.Unlock()
 	}
 	for _, st := range steps {
 		ok := true
@@ -124,7 +162,18 @@ func cmdVisSched(c Cmd) (interface{}, error) {
 			wTicket.letGo()
 			wTicket = nil
 			ok = waitW()
-		case st == "rot.meta":
+		case st == "rot.tree" || st == "rot.meta":
+			if st == "rot.meta" && atMeta {
+				atMeta = false // the rotation started by rot.tree built no tree and is already parked here
+				break
+			}
+			if st == "rot.meta" && rotStarted {
+				wTicket.letGo()
+				wTicket = gateArrive("rot.metadata.visible|*", W)
+				ok = wTicket != nil
+				rotStarted = false
+				break
+			}
 			go func() {
 				writer.ForceRotateSegmentsForTest()
 				wdone <- struct{}{}
@@ -141,6 +190,18 @@ func cmdVisSched(c Cmd) (interface{}, error) {
 				curSeg = fmt.Sprint(t.kv["segkey"])
 				t.letGo()
 			}
+			if st == "rot.tree" {
+				wTicket = gateArriveAny([]string{"rot.tree.created|*", "rot.metadata.visible|*"}, W)
+				ok = wTicket != nil
+				if ok && wTicket.point == "rot.metadata.visible" {
+					atMeta = true
+				} else {
+					rotStarted = true
+					treesParked++
+				}
+				break
+			}
+			gateClose("rot.tree.created|*")
 			wTicket = gateArrive("rot.metadata.visible|*", W)
 			ok = wTicket != nil
 		case st == "rot.remove":
@@ -176,9 +237,15 @@ func cmdVisSched(c Cmd) (interface{}, error) {
 			qTicket.letGo()
 			qTicket = gateArriveAny(pR, W)
 			ok = qTicket != nil
-		case st == "q.check":
+		case st == "q.tree":
 			qTicket.letGo()
 			qTicket = gateArriveSeg("search.unrotated|"+qs, want, 300*time.Millisecond) // nil: the query took the rotated path / is done
+		case st == "q.check":
+			// parked there already (q.tree); schedules generated without q.tree release the listing ticket here
+			if !sawTree {
+				qTicket.letGo()
+				qTicket = gateArriveSeg("search.unrotated|"+qs, want, 300*time.Millisecond)
+			}
 		case st == "q.plan":
 			gateClose("search.unrotated|" + qs)
 			qTicket = gateArriveSeg("search.planned|"+qs, want, 300*time.Millisecond)
@@ -227,7 +294,7 @@ func cmdVisSched(c Cmd) (interface{}, error) {
 	hk.events = nil
 	hk.mu.Unlock()
 	out := map[string]interface{}{"forced": forced, "of": len(steps), "infeasible": infeasible, "answered": gotQ,
-		"visible_before_query": visibleBeforeQuery, "ingested": ingested, "flushed_visible": flushedVisible, "events": ev, "next_id": nextID}
+		"trees_parked": treesParked, "visible_before_query": visibleBeforeQuery, "ingested": ingested, "flushed_visible": flushedVisible, "events": ev, "next_id": nextID}
 	if gotQ {
 		if q.err != "" {
 			out["qerr"] = q.err
